@@ -3,6 +3,8 @@
 Creates the patch in the scratch worktree /tmp/scratch (a checkout of /repo HEAD)."""
 import subprocess, sys
 prop, name, path = sys.argv[1:4]
+import os
+OUT = os.environ.get("MUTDIR", "/verif/mutants")
 old, new = sys.stdin.read().split('\n=====\n')
 new = new.rstrip('\n') if not new.endswith('\n\n') else new
 wt = '/tmp/scratch'
@@ -12,6 +14,6 @@ if s.count(old) != 1:
     print(f'ERROR {prop}_{name}: old text occurs {s.count(old)} times'); sys.exit(1)
 open(f'{wt}/{path}', 'w').write(s.replace(old, new))
 d = subprocess.check_output(['git', '-C', wt, 'diff']).decode()
-open(f'/verif/mutants/{prop}_{name}.patch', 'w').write(d)
+open(f'{OUT}/{prop}_{name}.patch', 'w').write(d)
 subprocess.check_call(['git', '-C', wt, 'checkout', '-q', '--', '.'])
 print('ok', prop, name)
